@@ -36,4 +36,11 @@ CHECKS = [
              "independent strict reader: one final response per call, body equals output cut to Content-Length, framing consistent with the head, "
              "exactly one terminating chunk, nothing after the last response, keep-alive only when self-delimiting/not refused/announced.",
      "note": "fake socket instead of a kernel socket (sendfile emulated with pread); misbehaving applications excluded; client sends everything then half-closes"},
+    {"id": "C09", "engine": "W",
+     "technique": "property-based testing (Hypothesis) over the full character alphabet of status/header strings and start_response call programs, line-for-line head oracle",
+     "text": "Status strings, header names and values over the whole alphabet (forbidden bytes at every position class), hop-by-hop names, websocket "
+             "upgrade and second start_response calls (with/without exc_info, before/after the first write) x 4 worker classes: forbidden input "
+             "must leave nothing of the application's head on the wire; otherwise the head must equal the model line for line; plainly valid heads "
+             "must not be refused.",
+     "note": "server may refuse more than the statement demands; error pages (4xx/5xx written by the server itself) count as 'nothing of the application's head'"},
 ]
